@@ -356,6 +356,13 @@ func (r *runner) script() []chunk {
 	return sc
 }
 
+// Grow sizes beyond anything make([]byte, n) can deliver (maxAlloc is 2^48 on linux/amd64): 2c+n either trips
+// grow's overflow guard (maxInt, maxInt-1 on a buffer with capacity) or makeSlice fails (the rest, and maxInt on
+// a buffer without capacity)
+const maxInt = int(^uint(0) >> 1)
+
+var hostileSizes = []int{1 << 49, 1<<49 + 1, 1 << 55, 1 << 61, maxInt / 2, maxInt/2 - 1, maxInt/2 + 1, maxInt - 1, maxInt, maxInt - 64, maxInt - 1000}
+
 type weights struct {
 	write, writeString, writeByte, writeRune, writeRuneBytes int
 	read, readByte, readRune, next                           int
@@ -448,6 +455,12 @@ func (r *runner) next(w *weights) *gop {
 		n := r.size(w.maxPayload * 2)
 		if inv {
 			n = -1 - r.rnd.Intn(5)
+			if r.rnd.Intn(2) == 0 { // a size that certainly cannot be allocated (nothing is allocated: make fails first)
+				n = hostileSizes[r.rnd.Intn(len(hostileSizes))]
+				if r.rnd.Intn(3) == 0 {
+					n = 1<<49 + r.rnd.Intn(1<<40)
+				}
+			}
 		}
 		return &gop{k: kGrow, n: n}
 	case 14:
